@@ -86,7 +86,9 @@ class SimulatedExecutionEnvironment(ExecutionEnvironment):
         deterministic_problem = up.model.Problem(problem.name, problem.environment)
 
         for fluent in problem.fluents:
-            default_value = problem.initial_defaults.get(fluent.type, False)
+            # fluents_defaults holds the per-fluent default or, failing that, the
+            # per-type default the fluent got when it was added to the problem
+            default_value = problem.fluents_defaults.get(fluent, False)
             deterministic_problem.add_fluent(
                 fluent, default_initial_value=default_value
             )
@@ -99,7 +101,8 @@ class SimulatedExecutionEnvironment(ExecutionEnvironment):
 
         for action in problem.actions:
             if isinstance(action, up.model.contingent.sensing_action.SensingAction):
-                # Create a dummy action with no effects instead of a sensing action
+                # Replace the sensing action by an ordinary action with the same
+                # preconditions and effects (the observations are computed in apply)
                 params = OrderedDict({p.name: p.type for p in action.parameters})
                 dummy = up.model.InstantaneousAction(
                     action.name,
@@ -108,6 +111,8 @@ class SimulatedExecutionEnvironment(ExecutionEnvironment):
                 )
                 for precond in action.preconditions:
                     dummy.add_precondition(precond)
+                for effect in action.effects:
+                    dummy._add_effect_instance(effect.clone())
                 deterministic_problem.add_action(dummy)
             else:
                 deterministic_problem.add_action(action.clone())
@@ -131,10 +136,12 @@ class SimulatedExecutionEnvironment(ExecutionEnvironment):
         symbol_to_fnode = {}
         cnt = 0
         for hf in problem.hidden_fluents:
-            if not hf.is_not():
+            # a hidden fluent may occur only negated in the constraints
+            atom = hf.arg(0) if hf.is_not() else hf
+            if atom not in fnode_to_symbol:
                 s = Symbol(f"v_{cnt}")
-                fnode_to_symbol[hf] = s
-                symbol_to_fnode[s] = hf
+                fnode_to_symbol[atom] = s
+                symbol_to_fnode[s] = atom
                 cnt += 1
 
         constraints = []
